@@ -31,7 +31,7 @@ def _case(mixed, safe, removal=False):
 
 def strategy(tier):
     # the shape of known finding F22 is excluded by construction in 5 of 6 draws
-    return st.one_of(_case(True, True), _case(True, True), _case(True, True), _case(True, True),
+    return st.one_of(gp.multires_case(mixed_nrexcl=True, bonded_only=True),_case(True, True), _case(True, True), _case(True, True), _case(True, True),
                      _case(False, True), _case(True, False), _case(True, True, removal=True))
 
 
